@@ -198,8 +198,21 @@ func c09Run(w *Worker, tape *simrt.Tape) *Outcome {
 		}
 		return o
 	}
+	// the artefact is not always the last thing on its stream: with a tape-chosen tail (a second
+	// copy of the encoding, or foreign bytes) the reader must stop exactly at the end of the first
+	trailing := 0
+	if enc != encDump && scenario == "roundtrip" {
+		trailing = tape.Choose(simrt.SIO, 3)
+	}
 	decode := func(chunk simrt.Chunker) (any, *simrt.Reader, int64, error, string) {
-		rd := simrt.NewReader(ref.Buf)
+		data := ref.Buf
+		switch trailing {
+		case 1:
+			data = append(append([]byte{}, ref.Buf...), ref.Buf...)
+		case 2:
+			data = append(append([]byte{}, ref.Buf...), bytes.Repeat([]byte{0xa5, 0x00, 0xff, 0x01}, 64)...)
+		}
+		rd := simrt.NewReader(data)
 		rd.Chunk = chunk
 		rd.EOFWithData = tape.Choose(simrt.SIO, 3) == 0
 		fresh := a.mk()
@@ -207,6 +220,9 @@ func c09Run(w *Worker, tape *simrt.Tape) *Outcome {
 		var rerr error
 		pan := guard(func() { rn, rerr = readWith(fresh, enc, unsafe, rd) })
 		return fresh, rd, rn, rerr, pan
+	}
+	if trailing != 0 {
+		o.probe("trailing_data_after_artefact")
 	}
 	var dec any
 	if scenario == "concurrent-decode" {
@@ -289,7 +305,23 @@ func c09Run(w *Worker, tape *simrt.Tape) *Outcome {
 		}
 		o.Evals++
 		if rn >= 0 && (int(rn) != len(ref.Buf) || rd.Consumed() != len(ref.Buf)) {
-			return fail("byte-count", fmt.Sprintf("reader reported %d bytes and consumed %d, the encoding has %d", rn, rd.Consumed(), len(ref.Buf)))
+			return fail("byte-count", fmt.Sprintf("reader reported %d bytes and consumed %d, the encoding has %d (%d bytes of other data follow it on the stream)", rn, rd.Consumed(), len(ref.Buf), len(rd.Data)-len(ref.Buf)))
+		}
+		if trailing == 1 {
+			// the second copy must decode from where the first one stopped
+			second := a.mk()
+			var rn2 int64
+			var rerr2 error
+			if pan := guard(func() { rn2, rerr2 = readWith(second, enc, unsafe, rd) }); pan != "" {
+				return fail("decode-panic", "decoding the second artefact of the stream: "+pan)
+			}
+			o.Evals++
+			if rerr2 != nil || int(rn2) != len(ref.Buf) || rd.Consumed() != 2*len(ref.Buf) {
+				return fail("byte-count", fmt.Sprintf("the second copy of the artefact on the same stream did not decode cleanly: err=%v reported %d consumed %d of %d", rerr2, rn2, rd.Consumed(), 2*len(ref.Buf)))
+			}
+			if !bytes.Equal(toBytes(second), toBytes(d)) {
+				return fail("decoders-disagree", "two copies of one encoding on one stream decoded to different objects")
+			}
 		}
 		dec = d
 	}
